@@ -74,6 +74,45 @@ def random_grammar(rng, max_nts=6, allow_eps=True, alphabet=None, allow_cyclic=F
     return dict(FEATURE["nest"])
 
 
+def nullable_chain_grammar(rng):
+    """nonterminals that are nullable only *indirectly*, through rules that appear later in the grammar (forward references),
+    and that are used several times side by side: stresses nullable-set computation and Earley's nullable prediction"""
+    k = rng.randint(2, 4)
+    names = ["<n%d>" % i for i in range(k)]
+    g = {}
+    first = names[0]
+    shape = rng.choice(["pair", "layout", "triple", "mixed"])
+    if shape == "pair":
+        g["<start>"] = [first + first]
+    elif shape == "layout":
+        g["<start>"] = [first + "<item>"]
+        g["<item>"] = [first + rng.choice("xy"), first + "x<item>"] if rng.random() < 0.5 else [first + "x"]
+    elif shape == "triple":
+        g["<start>"] = [first + "a" + first + first]
+    else:
+        g["<start>"] = ["<w>"]
+        g["<w>"] = [first + "<w>" + first, "b", first]
+    for i, n in enumerate(names):
+        nxt = names[i + 1] if i + 1 < k else None
+        alts = []
+        if nxt:
+            alts.append(nxt if rng.random() < 0.6 else nxt + nxt)
+            if rng.random() < 0.6:
+                alts.append(rng.choice("xy ") + (n if rng.random() < 0.3 else ""))
+        else:
+            alts = ["", rng.choice([" " + n, "y", "x" + n])] if rng.random() < 0.7 else [""]
+        rng.shuffle(alts)
+        g[n] = alts
+    m = G(g)
+    if m.well_formed() and not m.derives_self():
+        return g
+    return {"<start>": ["<a><a>"], "<a>": ["<b>", "x"], "<b>": ["<c>"], "<c>": [""]}
+
+
+FEATURE["nullable-forward-pair"] = {"<start>": ["<a><a>"], "<a>": ["<b>", "x"], "<b>": ["<c>"], "<c>": [""]}
+FEATURE["nullable-forward-layout"] = {"<start>": ["<ws><item>"], "<item>": ["<ws>x", "<ws>x;<item>"], "<ws>": ["<blanks>"], "<blanks>": ["", " <blanks>"]}
+
+
 def shipped():
     """grammars shipped with ISLa (imports isla lazily)"""
     from isla_formalizations import csv as csvl, xml_lang, rest, scriptsizec
